@@ -110,6 +110,9 @@ def _perf_cases(tier):
     cases.append(("meta_and_signatures", [dict(notes=[(60, 0.0, 1.0, 64, 0)], controls=[], programs=[(0.0, 1, 0), (0.5, 40, 0)],
                                                key_signatures=[dict(time=0.0, fifths=-3, mode="minor"), dict(time=1.0, fifths=2, mode="major")],
                                                time_signatures=[dict(time=0.0, beats=6, beat_type=8)], meta_other=[dict(time=0.25, type="marker", text="A")])]))
+    # several control changes at one time, handed in in the order in which they were played (pedal fully down then up at once; soft before sustain)
+    cases.append(("control_changes_sharing_a_time", [dict(notes=[(60, 0.0, 2.0, 64, 0)], programs=[],
+                                                          controls=[(64, 0.5, 127), (64, 0.5, 0), (67, 1.0, 90), (64, 1.0, 30), (64, 1.0, 10), (1, 1.5, 99), (1, 1.5, 3), (1, 1.5, 50)])]))
     # every way of naming a mode that the library documents (strings, None = major, and the integer codes 1 = major, -1 = minor)
     cases.append(("key_signature_modes_by_name_and_by_code", [dict(notes=[(60, 0.0, 1.0, 64, 0)], controls=[], programs=[],
                                                                    key_signatures=[dict(time=0.0, fifths=-1, mode=1), dict(time=0.5, fifths=-1, mode=-1), dict(time=1.0, fifths=3, mode=None),
@@ -179,6 +182,12 @@ def bounded(b):
                     if not ok:
                         continue
                     _compare(b, case, pps if kind != "part" else [pps[0]], back, ppq, mpq, merged=merge_save or merge_load)
+                    if len(parts) == 1:
+                        # order of the control changes as HANDED IN (the specification list, not the built part)
+                        want_seq = [(num, val) for (num, t_, val) in sorted(parts[0].get("controls", []), key=lambda c: c[1])]  # (stable: equal times keep their order)
+                        got_seq = [(c["number"], c["value"]) for pp in back.performedparts for c in sorted(pp.controls, key=lambda c: c["time_tick"])]
+                        b.case("roundtrip/same_control_changes", got_seq == want_seq, dict(case, compared="order of the control changes"),
+                               "control changes come back in the order %r, they were handed in as %r" % (got_seq, want_seq))
     _dispatcher(b)
     _tempo_files(b)
 
